@@ -82,7 +82,6 @@ func NoteObj[P any](p P) P {
 	return p
 }
 
-
 // pushPtr is append without runtime.growslice (which carries its own race instrumentation and would
 // report the bookkeeping of the scheduler as a race of the code under test).
 //
